@@ -464,6 +464,17 @@ def run(ctx, res):
                 vectors.append(("own_bound_%d_%s" % (i, "lo" if side == 0 else "up"), x))
         # the same gate must act when the caller supplies tabulated distances
         vectors += [("tab_" + k, gen_vector(rng, lo, up, k)) for k in ("inside", "far_outside")]
+        if cfg["model"].get("gamma_pl_global_sampling"):
+            # a broad slope population centred at the end of its box: most of its draws lie beyond the tabulated slope axis
+            # (the box of the population MEAN lies inside the axis — the proviso of the property — its draws need not)
+            nms = cl.param.param_list()
+            if "gamma_pl_mean" in nms and "gamma_pl_sigma" in nms:
+                im, isg = nms.index("gamma_pl_mean"), nms.index("gamma_pl_sigma")
+                for rep in range(8):
+                    x = gen_vector(rng, lo, up, "inside")
+                    x[im] = up[im] if rep % 2 == 0 else lo[im]
+                    x[isg] = up[isg]
+                    vectors.append(("global_slope_beyond_axis", x))
         if cfg["cosmology"] == "oLCDM":
             names = cl.param.param_list()
             io, ik = names.index("om"), names.index("ok")
